@@ -27,7 +27,19 @@ A share of the cases is staged with hash_ws=True and/or use_tmp=True (case keys
 compared ACROSS PROCESSES ONLY (monitor `C11_ok`, no model agreement); use_tmp
 alone changes no observable, those cases keep the model comparison.
 
-The hash seeds are chosen by a pre-computation in sub-processes: among the
+A share of the cases ("adapter": slurm | lsf | flux) is dry-run with a scheduler
+batch block and steps declaring nodes/procs and several optional resource keys
+around `$(LAUNCHER)`: the script TEXTS then carry scheduler headers and launcher
+command lines.  The Expand model does not model launcher text, so these cases
+are compared across processes only as well.
+
+The output roots of the processes differ in depth and spelling and include
+characters the path sanitiser rewrites or strips (blank, ' + , non-ASCII); the
+root is replaced by the placeholder exactly AS GIVEN, string by string, so a
+workspace / script that is not under the given root shows up as a difference.
+
+The hash seeds are chosen by a pre-computation in sub-processes (tie names AND
+the resource-key sets the launcher code iterates): among the
 candidates, seeds that iterate the two-element sets of the "tie" parameter names
 ({"temp","TEMP"}, names equal up to case / underscores / digit suffix) in BOTH
 orders are always included.
@@ -65,7 +77,12 @@ TIE_PAIRS = [["temp", "TEMP"], ["dt", "DT"], ["size", "SIZE"], ["Temp", "temp"],
 # the root's own directory name: C10's K1, not a C11 matter).  The LAST process
 # re-uses the FIRST process's hash seed under another root, so that a
 # difference caused by the root alone is recognisable as such.
-VARIANTS = ["p0", "q1/deeper.dir-1", "Z_9/a/b/c", "w-3/x.y", "rr/d"]
+VARIANTS = ["p0", "q1/deeper.dir-1", "my runs/study b", "it's+a,b/\u00fc\u00e4 x", "rr/d"]
+# the StudyStep run keys handed to get_parallelize_command as **kwargs (nodes/procs
+# popped), in dict order; custom keys are appended in the order the case lists them
+RUN_KWARGS = ["cmd", "depends", "pre", "post", "restart", "gpus", "cores per task", "walltime", "reservation"]
+KEYSETS = [RUN_KWARGS, RUN_KWARGS + ["exclusive"], RUN_KWARGS + ["qos"], RUN_KWARGS + ["exclusive", "qos"]]
+RES_KEYS = ["cores per task", "gpus", "walltime", "reservation", "exclusive", "qos"]
 
 HEADER = c08.HEADER + """From MWF Require Import Expand.OrderFree.
 Definition X_ := mkX.
@@ -118,7 +135,7 @@ def expand_once(case, root):
             return r
         ScriptAdapter.write_script = write_script
         try:
-            dag.set_adapter({"type": "local"})
+            dag.set_adapter(batch_block(case))
             status, polls, cap = StudyStatus.RUNNING, 0, len(o["nodes"]) + 3
             while status == StudyStatus.RUNNING and polls < cap:
                 n0 = len(calls)
@@ -157,7 +174,41 @@ def expand_once(case, root):
             ser["exc"] = "EXC:%s" % type(e).__name__
         finally:
             ScriptAdapter.write_script = orig
-    return json.loads(json.dumps(ser).replace(root, "/R"))
+    return replace_root(ser, root)
+
+
+def replace_root(x, root, placeholder="/R"):
+    """the root exactly AS GIVEN -> placeholder, in every string"""
+    if isinstance(x, str):
+        return x.replace(root, placeholder)
+    if isinstance(x, list):
+        return [replace_root(v, root, placeholder) for v in x]
+    if isinstance(x, dict):
+        return {k: replace_root(v, root, placeholder) for k, v in x.items()}
+    return x
+
+
+def batch_block(case):
+    """the adapter settings of the case; the flux adapter is made constructible
+    without the flux python module (its constructor stops at its last statement)"""
+    kind = case.get("adapter") or "local"
+    if kind == "local":
+        return {"type": "local"}
+    if kind == "flux":
+        from maestrowf.interfaces import ScriptAdapterFactory
+        import maestrowf.interfaces.script.fluxscriptadapter as m_flux
+        Flux = m_flux.FluxScriptAdapter
+        if not getattr(ScriptAdapterFactory.factories.get("flux"), "_c11_shim", False):
+            class FluxShim(Flux):
+                _c11_shim = True
+
+                def __init__(self, **kw):
+                    try:
+                        super(FluxShim, self).__init__(**kw)
+                    except (NameError, ImportError, AttributeError):
+                        self._broker_version = "0.0.0"
+            ScriptAdapterFactory.factories["flux"] = FluxShim
+    return {"type": kind, "host": "h", "bank": "b", "queue": "q", "nodes": 2}
 
 
 def worker_main(inp, outp):
@@ -189,46 +240,73 @@ def worker_main(inp, outp):
 # ----------------------------------------------------------------------------
 # driver side: fan out over processes
 # ----------------------------------------------------------------------------
-PROBE = ("import json,sys\nout=[]\nfor a,b in json.loads(sys.argv[1]):\n"
-         "    s=set(); s.add(a); s.add(b); out.append(list(set()|s)[0]==a)\nprint(json.dumps(out))")
+PROBE = """
+import json, sys
+ties, keysets, res = json.loads(sys.argv[1])
+out = []
+for a, b in ties:
+    s = set(); s.add(a); s.add(b)
+    out.append(list(set() | s)[0] == a)
+for ks in keysets:          # slurmscriptadapter.get_parallelize_command
+    order = list(set(dict.fromkeys(ks).keys()) - set(["cmd", "depends", "ntasks", "nodes"]))
+    for i, a in enumerate(res):
+        for b in res[i + 1:]:
+            out.append(order.index(a) < order.index(b) if a in order and b in order else None)
+print(json.dumps(out))
+"""
+
+
+def probe_items():
+    """what the probe reports, in order: [(label, mandatory)]"""
+    items = [("%s/%s" % (a, b), k == 0) for k, (a, b) in enumerate(TIE_PAIRS)]
+    for n, ks in enumerate(KEYSETS):
+        for i, a in enumerate(RES_KEYS):
+            for b in RES_KEYS[i + 1:]:
+                items.append(("keyset%d:%s<%s" % (n, a, b), (a, b) == ("cores per task", "gpus")))
+    return items
 
 
 def pick_seeds(n):
-    """n PYTHONHASHSEED values; pre-computed in sub-processes so that the
-    two-element sets of the tie names are iterated in BOTH orders among them
-    ({"temp","TEMP"} always; as many other pairs as possible)."""
+    """n PYTHONHASHSEED values, pre-computed in sub-processes: among them the
+    two-element set {"temp","TEMP"} is iterated in BOTH orders and the resource
+    keys `cores per task` / `gpus` come out of the launcher code's key set in
+    both orders (for every key-set variant if possible); beyond that as many
+    tie pairs / resource-key pairs as possible are ordered both ways."""
+    import itertools
+    arg = json.dumps([TIE_PAIRS, KEYSETS, RES_KEYS])
+    items = probe_items()
+
     def probe(seed):
         try:
             e = dict(os.environ, PYTHONHASHSEED=seed)
-            p = subprocess.run([PY, "-c", PROBE, json.dumps(TIE_PAIRS)], env=e, stdout=subprocess.PIPE,
+            p = subprocess.run([PY, "-c", PROBE, arg], env=e, stdout=subprocess.PIPE,
                                stderr=subprocess.DEVNULL, timeout=120, text=True)
             return json.loads(p.stdout)
         except Exception:
             return None
     with ThreadPoolExecutor(max_workers=common.NCPU) as ex:
         orders = dict(zip(SEED_CANDIDATES, ex.map(probe, SEED_CANDIDATES)))
-    orders = {s: o for s, o in orders.items() if o and len(o) == len(TIE_PAIRS)}
-
-    def both(chosen):
-        return [k for k in range(len(TIE_PAIRS)) if len({orders[s][k] for s in chosen}) == 2]
-    chosen = []
-    pref = SEEDS_THOROUGH + SEED_CANDIDATES
-    first = [s for s in pref if s in orders]
-    if not first:
+    orders = {s: o for s, o in orders.items() if o and len(o) == len(items)}
+    cands = [s for s in SEED_CANDIDATES if s in orders]
+    if len(cands) < n:
         return (SEEDS_THOROUGH if n >= 4 else SEEDS_QUICK), {"probe": "failed"}
-    chosen.append(first[0])
-    # second seed: must flip the first pair
-    flip = [s for s in first if orders[s][0] != orders[chosen[0]][0]]
-    if flip:
-        chosen.append(max(flip, key=lambda s: (len(both(chosen + [s])), -first.index(s))))
-    while len(chosen) < n:
-        rest = [s for s in first if s not in chosen]
-        if not rest:
-            break
-        chosen.append(max(rest, key=lambda s: (len(both(chosen + [s])), -first.index(s))))
-    info = {"tie_pairs_iterated_both_ways": ["/".join(TIE_PAIRS[k]) for k in both(chosen)],
-            "first_element_by_seed": {s: [TIE_PAIRS[k][0 if orders[s][k] else 1] for k in range(len(TIE_PAIRS))]
-                                      for s in chosen}}
+
+    def both(chosen, only_mandatory=False):
+        return [k for k, (_, m) in enumerate(items) if (m or not only_mandatory)
+                and len({orders[s][k] for s in chosen} - {None}) == 2]
+    first = cands[0]
+    best, best_score = None, None
+    for rest in itertools.combinations(cands[1:], n - 1):
+        ch = (first,) + rest
+        score = (len(both(ch, True)), len(both(ch)), -sum(cands.index(s) for s in ch))
+        if best_score is None or score > best_score:
+            best, best_score = ch, score
+    chosen = list(best)
+    mand = [k for k, (_, m) in enumerate(items) if m]
+    info = {"mandatory_both_ways": "%d of %d" % (len(both(chosen, True)), len(mand)),
+            "mandatory_missing": [items[k][0] for k in mand if k not in both(chosen, True)],
+            "pairs_both_ways": "%d of %d" % (len(both(chosen)), len(items)),
+            "tie_pairs_both_ways": [items[k][0] for k in both(chosen) if k < len(TIE_PAIRS)]}
     return chosen, info
 
 
@@ -459,14 +537,46 @@ def gen_ties(rng):
     return {"rlimit": rng.choice([0, 1]), "params": params, "steps": steps, "stream": "ties"}
 
 
+def gen_sched(rng):
+    """a wide / ties / valid specification whose steps declare nodes/procs and
+    several optional resource keys around $(LAUNCHER), dry-run with a scheduler
+    batch block: the script texts carry headers and launcher command lines"""
+    r = rng.random()
+    case = gen_wide(rng) if r < 0.5 else (gen_ties(rng) if r < 0.7 else c08.gen_case(rng, "valid"))
+    case["stream"] = "sched"
+    case["adapter"] = rng.choice(["slurm", "slurm", "slurm", "lsf", "lsf", "flux"])
+    for st in case["steps"]:
+        run = st["run"]
+        for k in ("nodes", "procs", "walltime", "cores per task", "gpus", "reservation"):
+            run.pop(k, None)                      # C08's generator may have put tokens there
+        if rng.random() < 0.85:
+            run["nodes"] = rng.choice([1, 2])
+            run["procs"] = rng.choice([2, 4, 8])
+            for k, vals in (("cores per task", [2, 4]), ("gpus", [1, 2]), ("walltime", ["00:10:00", 30]),
+                            ("reservation", ["res1"]), ("exclusive", [True]), ("qos", ["high"]),
+                            ("rs per node", [1, 2]), ("bind", ["rs"])):
+                if rng.random() < (0.7 if k in ("cores per task", "gpus") else 0.35):
+                    run[k] = rng.choice(vals)
+            run["cmd"] = "$(LAUNCHER) " + run["cmd"]
+            if run.get("restart") and rng.random() < 0.5:
+                run["restart"] = "$(LAUNCHER) " + run["restart"]
+    return case
+
+
+def cross_only(case):
+    """cases the Gallina model does not describe: processes against each other only"""
+    return bool(case.get("hashws")) or (case.get("adapter") or "local") != "local"
+
+
 def case_key(case):
-    return json.dumps({k: case.get(k) for k in ("rlimit", "params", "steps", "hashws", "usetmp")}, sort_keys=True)
+    return json.dumps({k: case.get(k) for k in ("rlimit", "params", "steps", "hashws", "usetmp", "adapter")},
+                      sort_keys=True, default=str)
 
 
 def generate(rng, tier):
     quick = tier != "thorough"
-    n_tiny, n_valid, n_prefix, n_exotic, n_wide, n_ties = \
-        (8, 20, 6, 10, 30, 22) if quick else (100, 280, 70, 110, 380, 160)
+    n_tiny, n_valid, n_prefix, n_exotic, n_wide, n_ties, n_sched = \
+        (8, 18, 6, 10, 26, 18, 24) if quick else (100, 260, 70, 110, 340, 140, 200)
     cases = load_corpus()
     tiny = c08.tiny_cases()
     rng.shuffle(tiny)
@@ -476,6 +586,7 @@ def generate(rng, tier):
     gen += [c08.gen_case(rng, "exotic") for _ in range(n_exotic)]
     gen += [gen_wide(rng) for _ in range(n_wide)]
     gen += [gen_ties(rng) for _ in range(n_ties)]
+    gen += [gen_sched(rng) for _ in range(n_sched)]
     for c in gen:                      # the flags: --hashws / --usetmp
         r = rng.random()
         if r < 0.25:
@@ -507,7 +618,7 @@ def evaluate(ck, cases, procs, tag="C11"):
     for i, (case, ss) in enumerate(zip(cases, sers)):
         if any(s is None for s in ss):
             verdicts[i] = "lost"
-        elif case.get("hashws"):       # the model has hash_ws off: processes against each other only
+        elif cross_only(case):         # hash_ws / scheduler scripts: processes against each other only
             hidx.append(i)
             hlits.append(g_case(case, ss))
         else:
@@ -529,7 +640,7 @@ def evaluate(ck, cases, procs, tag="C11"):
         errs = errs + e3
         for j in hbad:
             verdicts[hidx[j]] = "violation"
-            detail[hidx[j]] = {"monitor_false": True, "hash_ws": True}
+            detail[hidx[j]] = {"monitor_false": True, "cross_process_only": True}
     # the Python-side comparison of the complete serialisations must tell the same story
     for i in idx + hidx:
         d = cross_diff(sers[i], procs)
@@ -579,7 +690,8 @@ def run(ck):
         mp = max_parents(x)
         ck.count(case_key(case), nontrivial=bool(o.get("ok")) and (mp >= 2 or max_params(x) >= 2))
         hist["streams"][case["stream"]] = hist["streams"].get(case["stream"], 0) + 1
-        fl = "hashws=%d,usetmp=%d" % (bool(case.get("hashws")), bool(case.get("usetmp")))
+        fl = "hashws=%d,usetmp=%d,adapter=%s" % (bool(case.get("hashws")), bool(case.get("usetmp")),
+                                                  case.get("adapter") or "local")
         hist["flags"][fl] = hist["flags"].get(fl, 0) + 1
         if o.get("ok"):
             b = min(len(o["nodes"]) - 1, 16)
@@ -612,10 +724,14 @@ def run(ck):
                       "'wide' stream (4-7 steps, 3-5 parameters x 2-4 rows, steps with 2-4 parents mixing ordinary and "
                       "funnel dependencies, workspace references to ancestors) + the 'ties' stream (two parameters whose "
                       "names are equal up to case / underscores / digit suffix, e.g. temp/TEMP, used together in one step); "
-                      "25%% of the generated cases are staged with hash_ws=True and 15%% with use_tmp=True; every "
+                      "+ the 'sched' stream (slurm/lsf/flux batch block, steps with nodes/procs and optional resource keys "
+                      "cores per task/gpus/walltime/reservation/exclusive/qos/... around $(LAUNCHER): script texts with "
+                      "scheduler headers and launcher command lines, compared across processes only); "
+                      "25%% of the generated cases are staged with hash_ws=True and 15%% with use_tmp=True; the output roots "
+                      "contain blanks, quote, plus, comma and non-ASCII characters and are replaced exactly as given; every "
                       "specification is staged and dry-run (local adapter, scripts and status.csv written) in %d fresh "
                       "interpreters = PYTHONHASHSEED %s (chosen by a sub-process pre-computation so that the 2-element sets "
-                      "of tie names are iterated in both orders) under different output roots + the first seed again under "
+                      "of tie names and the launcher code's resource-key sets are iterated in both orders) under different output roots + the first seed again under "
                       "one more root; hash_ws cases are compared across processes only (C11_ok; the Gallina model has "
                       "hash_ws off), all others also with the model; distinct = distinct (rlimit, params, steps, flags); "
                       "non-trivial = staged and some instance has >= 2 parents or >= 2 record parameters"
@@ -629,7 +745,7 @@ def search(ck):
     """Proof or correspondence broke: look for two processes that disagree, bigger budget, no Coq."""
     rng = random.Random(ck.seed + 104729)
     cases = [gen_wide(rng) for _ in range(250)] + [c08.gen_case(rng, "valid") for _ in range(150)] \
-        + [gen_ties(rng) for _ in range(150)]
+        + [gen_ties(rng) for _ in range(150)] + [gen_sched(rng) for _ in range(200)]
     for k, c in enumerate(cases):
         if k % 3 == 0:
             c["hashws"] = True
@@ -660,7 +776,7 @@ def replay(ck, path):
     sers, verdicts, detail, problems, errs = evaluate(ck, [case], procs, tag="C11_replay")
     for (s, v), x in zip(procs, sers[0]):
         print("PYTHONHASHSEED=%s root=.../%s/st/out:" % (s, v), json.dumps(x)[:3000])
-    if not case.get("hashws"):
+    if not cross_only(case):
         print("model:", model_text(case))
     print("verdict:", verdicts[0], detail.get(0), problems[:1], errs[:1])
     return 0 if verdicts[0] == "ok" and not problems and not errs else 1
